@@ -24,6 +24,15 @@ NCT = 5      # CT2: falsy instances (__len__ 0); CT3: derived from CT0; CT4: der
 NK = 4
 
 
+def _ids(xs):
+    """identifiers for a message; never fails on a foreign element (the message describes a violation)"""
+    return [getattr(a, 'id', repr(a)) for a in xs]
+
+
+def _cids(xs):
+    return [getattr(getattr(c, 'agent', None), 'id', repr(c)) for c in xs]
+
+
 class World:
     pass
 
@@ -45,10 +54,13 @@ def make_world():
             w.CT.append(type('CT4', (PositionComponent,), {'_verif_user': True}))
             continue
         w.CT.append(type(f'CT{k}', ((w.CT[0],) if k == 3 else (Component,)), ns))
-    K0 = type('K0', (Agent,), {'_verif_user': True})
-    K1 = type('K1', (K0,), {})
-    K2 = type('K2', (K0,), {})
-    K3 = type('K3', (K1,), {})
+    # every agent class is built from ONE namespace dict (a species-template factory): what the metaclass keeps
+    # per class must not live in, or be taken from, the namespace the caller handed in
+    w.NS = {'_verif_user': True}
+    K0 = type('K0', (Agent,), w.NS)
+    K1 = type('K1', (K0,), w.NS)
+    K2 = type('K2', (K0,), w.NS)
+    K3 = type('K3', (K1,), w.NS)
     w.K = [K0, K1, K2, K3]
     w.kparent = {1: 0, 2: 0, 3: 1}
     w.models = {}
@@ -106,10 +118,13 @@ def check_listings(w, out, where):
             out.append(('C04', f'{where}: len(environment)={len(env)} but {len(objs)} agents are live'))
         it = list(env)
         if len(it) != len(objs) or any(a is not b for a, b in zip(it, objs)):
-            out.append(('C04', f'{where}: iteration yields {[a.id for a in it]}, expected {[a.id for a in objs]}'))
+            out.append(('C04', f'{where}: iteration yields {_ids(it)}, expected {_ids(objs)}'))
         ga = env.get_agents()
         if len(ga) != len(objs) or any(a is not b for a, b in zip(ga, objs)):
-            out.append(('C04', f'{where}: get_agents() yields {[a.id for a in ga]}, expected {[a.id for a in objs]}'))
+            out.append(('C04', f'{where}: get_agents() yields {_ids(ga)}, expected {_ids(objs)}'))
+        # the caller owns the list it was given: scribbling on it must not show in any later answer
+        ga.reverse()
+        ga.append(None)
         for o in objs:
             if env.get_agent(o.id) is not o:
                 out.append(('C04', f'{where}: lookup of live agent {o.id} failed'))
@@ -121,8 +136,8 @@ def check_listings(w, out, where):
                     out.append(('C03', f'{where}: model {k} lists {len(got)} CT{ct} components, expected none'))
             elif got is None or len(got) != len(exp) or any(a is not b for a, b in zip(got, exp)):
                 out.append(('C03', f'{where}: model {k} CT{ct} listing is '
-                                   f'{None if got is None else [c.agent.id for c in got]}, '
-                                   f'expected {[c.agent.id for c in exp]}'))
+                                   f'{None if got is None else _cids(got)}, '
+                                   f'expected {_cids(exp)}'))
 
 
 def check_positions(w, out, where):
@@ -387,7 +402,7 @@ def run_history(ops, props=None):
             before = monitor.fingerprint((env.agents, m.systems.component_pools))
             got = env.get_agents(*tmpl, **kw)
             if len(got) != len(exp) or any(a is not b for a, b in zip(got, exp)):
-                out.append(('C13', f'{where}: get_agents -> {[a.id for a in got]}, expected {[a.id for a in exp]}'))
+                out.append(('C13', f'{where}: get_agents -> {_ids(got)}, expected {_ids(exp)}'))
             if got is env.agents or any(got is x for x in (env.agents.values(),)):
                 out.append(('C13', f'{where}: get_agents returned a live view'))
             got.append(None)
@@ -396,10 +411,10 @@ def run_history(ops, props=None):
                 out.append(('C13', f'{where}: the returned list is not independent of the environment'))
             r = env.get_random_agent(*tmpl, **kw)
             if (r is None) != (not exp) or (r is not None and not any(r is e for e in exp)):
-                out.append(('C13', f'{where}: get_random_agent -> {getattr(r, "id", None)}, candidates {[a.id for a in exp]}'))
+                out.append(('C13', f'{where}: get_random_agent -> {getattr(r, "id", None)}, candidates {_ids(exp)}'))
             sh = env.shuffle(*tmpl, **kw)
             if sorted(map(id, sh)) != sorted(map(id, exp)):
-                out.append(('C13', f'{where}: shuffle -> {[a.id for a in sh]}, expected a permutation of {[a.id for a in exp]}'))
+                out.append(('C13', f'{where}: shuffle -> {_ids(sh)}, expected a permutation of {_ids(exp)}'))
             if monitor.fingerprint((env.agents, m.systems.component_pools)) != before:
                 out.append(('C13', f'{where}: a query altered the environment'))
         elif kind in ('move', 'move_to'):
@@ -462,11 +477,15 @@ def run_history(ops, props=None):
                     if ok:
                         exp.append(w.objs[n])
                 if len(got) != len(exp) or any(a is not b for a, b in zip(got, exp)):
-                    out.append(('C12', f'{where}: wrapping world: get_agents_at -> {[a.id for a in got]}, '
-                                       f'expected {[a.id for a in exp]} (seam-aware)'))
+                    out.append(('C12', f'{where}: wrapping world: get_agents_at -> {_ids(got)}, '
+                                       f'expected {_ids(exp)} (seam-aware)'))
             elif len(got) != len(exp) or any(a is not b for a, b in zip(got, exp)):
                 if not w.kind[4]:
-                    out.append(('C12', f'{where}: get_agents_at -> {[a.id for a in got]}, expected {[a.id for a in exp]}'))
+                    out.append(('C12', f'{where}: get_agents_at -> {_ids(got)}, expected {_ids(exp)}'))
+            # the answer is the caller's own list (an empty one included): scribbling on it shows nowhere later
+            if isinstance(got, list):
+                got.append(m.environment)
+                got.reverse()
         elif kind in ('cadd', 'cremove'):
             ci, ct = op[1], op[2]
             cls = w.K[ci]
@@ -491,7 +510,7 @@ def run_history(ops, props=None):
         elif kind == 'subclass':
             parent = op[1]
             if parent < len(w.K):
-                cls = type(f'K{len(w.K)}', (w.K[parent],), {})
+                cls = type(f'K{len(w.K)}', (w.K[parent],), w.NS)
                 w.K.append(cls)
                 w.ccomps[len(w.K) - 1] = {}
                 w.ctag[len(w.K) - 1] = 0
@@ -541,6 +560,11 @@ def small_histories(prop):
         off = 0 if kind == 'space' else 1
         places = [(0, 0, 0), (max(W - off, 0), max(H - off, 0), max(D - off, 0)), (W + 1, 0, 0), (0, H + 1, 0),
                   (0, 0, D + 1), (-1, 0, 0), (0, -1, 0), (0, 0, -1)]
+        # just outside a face by less than one unit (truncation / rounding of the coordinate must not let it in)
+        for ax, e in enumerate((W, H, D)):
+            if e > 0:
+                for v in (-0.5, e - off + 0.5, -0.001, e - off + 0.001):
+                    places.append(tuple(v if j == ax else 0 for j in range(3)))
         ops = [('world', kind, W, H, D, False)]
         for i, p in enumerate(places):
             ops += [_mk(f'p{i}', 0, None, (0,) if i % 2 else ()), ('add', f'p{i}') + p]
